@@ -45,6 +45,10 @@ structure SessionEvidence where
   /-- recorded signing / encryption certificate passes the checks under the configuration NOW in use -/
   sigChainNow     : Bool
   encChainNow     : Bool
+  /-- the peer's Finished is the correct one for the master secret OF THE SESSION being resumed
+  (the one agreed in the handshake that recorded the certificates) and this transcript: that is
+  what ties the peer to the authenticated party.  A Finished that is merely consistent with
+  whatever value the client computes with — an empty or all-zero buffer, say — proves nothing. -/
   finishedCorrect : Bool
   deriving DecidableEq, Repr
 
@@ -96,7 +100,7 @@ def judge (verifying : Bool) (e : Evidence) (s : Option SessionEvidence) (o : Ob
     | some s =>
       if verifying && !(decide (2 ≤ s.certCount) && s.sigChainNow && s.encChainNow) then
         some ("resumed-unverified", "verifying client completed a resumed handshake whose recorded certificates do not pass the checks of the configuration in use")
-      else if !s.finishedCorrect then some ("finished", "completed a resumed handshake without a correct Finished")
+      else if !s.finishedCorrect then some ("finished", "completed a resumed handshake without a Finished computed from the session's master secret: the peer proved possession of nothing")
       else none
   else
     if e.certCount < 2 then some ("single-cert", s!"completed with {e.certCount} certificate(s)")
